@@ -372,6 +372,27 @@ def cases(rng, tier):
         if rng.random() < 0.12:
             c['maxiter'] = rng.choice([0, 1, 2, 3, -1, -5])     # partial thinning: subset / components / model still apply
         out.append(c)
+    # size thresholds: a side crossing 2^8, 2^10, 2^11 (a block-wise / tiled rewrite of euler, thin or the hull scan is exact on
+    # every small image), objects on the rows and columns next to those boundaries
+    LARGE = [(257, 5), (5, 257), (1023, 3), (1025, 3), (3, 1025), (2049, 2), (2, 2050), (1024, 4), (4, 1024), (1536, 3)]
+    for k in range(dict(quick=8, thorough=60, search=16)[tier]):
+        r, c_ = LARGE[(k + rng.randrange(len(LARGE))) % len(LARGE)] if k >= len(LARGE) else LARGE[k]
+        if tier == 'quick' and k >= 8:
+            break
+        nr = np.random.RandomState(rng.randrange(1 << 30))
+        A = nr.rand(r, c_) < rng.choice([0.3, 0.5, 0.7])
+        # a ring and a bar across each power-of-two boundary of the long axis
+        for b in (256, 512, 1024, 2048):
+            if r > b + 1:
+                A[b - 2:b + 2, :] = True
+                if c_ >= 3:
+                    A[b - 1:b + 1, 1:-1] = False
+            if c_ > b + 1:
+                A[:, b - 2:b + 2] = True
+                if r >= 3:
+                    A[1:-1, b - 1:b + 1] = False
+        out.append(dict(shape=[r, c_], data=[int(v) for v in A.ravel().tolist()], dtype=rng.choice(['bool', 'uint8']),
+                        layout=rng.choice(gen.LAYOUTS), gen='large'))
     return out
 
 
